@@ -1,6 +1,7 @@
-"""C03 HTTP routing: route tables x requests against api/router (patRouter) and lib/search (Tree).
+"""C03 HTTP routing: route tables x requests against api/router (patRouter), lib/search (Tree), api (engine).
 
-case (router): {"kind":"router","nf":bool,"regs":[{"m","p"}],"reqs":[{"m","p"}]}
+case (router): {"kind":"router","nf":bool,"ops":[{"op":"reg","m","p"} | {"op":"req","m","p"} | {"op":"req","m","raw","ph"}]}
+case (engine): {"kind":"engine","via":"engine"|"server","groups":[{"prefix","routes":[{"m","p"}]}],"reqs":[...]}
 case (tree):   {"kind":"tree","adds":[route],"reqs":[route]}
 """
 import itertools
@@ -48,7 +49,10 @@ RULE = ("route tables of 1-12 registrations over segments {a,b,c,:x,:y,:z} (dept
         "routes; ~20% register through api.engine / api.Server (AddRoutes groups, WithPrefix, relative / empty / "
         "dirty paths, duplicates across groups, bad methods; bindRoutes on a fresh router, every Router.Handle "
         "call recorded) and serve the requests through the bound router; thorough adds every 1-2 route table over patterns of depth <= 2 x every path of depth <= 3; "
-        "non-trivial = some handler ran with path variables and some request got 404/405; distinct = distinct case JSON")
+        "router cases are histories: ~40% interleave registrations and requests (a literal route registered for a "
+        "path already served through a ':param' route and served again, duplicates after serving); ~10 requests per "
+        "case are built by net/http from a raw target whose segments are percent-encoded once (%2541, a%252Fb, %25, +, "
+        "%20, UTF-8, %ff, %2e%2e, %2F) and must reach pathvar.Vars verbatim; non-trivial = some handler ran with path variables and some request got 404/405; distinct = distinct case JSON")
 TRUSTED = ["net/http request construction (driver sets r.Method / r.URL.Path directly) and httptest.ResponseRecorder",
            "path.Clean re-implemented as C03.Path.clean and compared with Go's result on every registered and requested path",
            "net/http method constants as written in C03/GenEnv.v"]
@@ -122,6 +126,8 @@ def _router_case(rng, tier):
             regs.append({"m": m, "p": p})
             continue
         segs = _pattern(rng, pats)
+        if rng.random() < 0.06 and segs:
+            segs[rng.randrange(len(segs))] = rng.choice(["%41", "+", "a%2Fb", "%25"])   # literal segments with escapes-as-text
         pats.append(segs)
         m = rng.choice(ms)
         p = _dirty(rng, segs)
@@ -166,7 +172,7 @@ def _router_case(rng, tier):
         reqs.append({"m": method(), "p": _dirty(rng, segs)})
     for p in rng.sample(["", "a", "a/b", ".", "..", "../a", "/..", "/../..", "//", "/a/", "/a//", "/a/b/..", "/a/b/../..", "/./.", ":x", "/:x", "/a/:y"], 5):
         reqs.append({"m": method(), "p": p})
-    return {"kind": "router", "nf": rng.random() < 0.3, "regs": regs, "reqs": reqs}
+    return {"kind": "router", "nf": rng.random() < 0.3, "regs": regs, "reqs": reqs, "_pats": pats}
 
 
 def _tree_case(rng, tier):
@@ -276,16 +282,96 @@ def _engine_case(rng, tier, clean=None):
         reqs.append({"m": method(), "p": "/" + "/".join(segs)})
     for p in rng.sample(["", "a", "a/b", ":id", "/", "/api", "/api/", "x", "/x", "/./x", "/a/b/..", "api/a"], 5):
         reqs.append({"m": method(), "p": p})
+    reqs += _raw_reqs(rng, [e[1] for e in eff], ms, 6)
     return {"kind": "engine", "via": "server" if rng.random() < 0.35 else "engine", "groups": groups, "reqs": reqs}
+
+
+RAW_SEGS = [b"%41", b"a%2Fb", b"%", b"+", b"a b", "\u00e9".encode("utf-8"), b"%zz", b"%2", b"\xff", b"a+b", b"%25",
+            b"%2541", b"a;b", b"a?b", b"a#b", "\u4e2d\u6587".encode("utf-8"), b"%c3%a9", b" ", b"%2e", b"x/y", b".", b"..", b"a", b"b"]
+SAFE = set(b"ABCDEFGHIJKLMNOPQRSTUVWXYZabcdefghijklmnopqrstuvwxyz0123456789-_.~:")
+
+
+def _escape(rng, seg):
+    """percent-encode a decoded segment once ('/' inside a segment becomes %2F, i.e. a separator after
+    decoding); characters that may stay raw ('+', ';') are escaped at random"""
+    out = ""
+    for c in seg:
+        if c in SAFE and not (c == 0x2E and rng.random() < 0.3) or (c in b"+;@,=" and rng.random() < 0.6):
+            out += chr(c)
+        else:
+            out += "%%%02X" % c if rng.random() < 0.8 else "%%%02x" % c
+    return out
+
+
+def _raw_req(rng, m, segs):
+    """request given by its raw target; ph = hex of the path net/http must decode it to"""
+    return {"m": m, "raw": "/" + "/".join(_escape(rng, x) for x in segs), "ph": (b"/" + b"/".join(segs)).hex(), "p": ""}
+
+
+def _raw_reqs(rng, pats, ms, n):
+    out = []
+    for _ in range(n):
+        if pats and rng.random() < 0.8:
+            segs = [rng.choice(RAW_SEGS) if x.startswith(":") or rng.random() < 0.1 else x.encode() for x in rng.choice(pats)]
+        else:
+            segs = [rng.choice(RAW_SEGS) for _ in range(rng.randint(1, 3))]
+        out.append(_raw_req(rng, rng.choice(ms), segs))
+    return out
+
+
+def _weave(rng, regs, reqs, pats):
+    """ops of a history: registrations and requests interleaved; after a request that can be answered through a
+    ':param' route, a more specific literal route for that very path is registered and the path served again;
+    duplicates are re-registered after serving"""
+    regs, reqs = list(regs), list(reqs)
+    ops = []
+    while regs or reqs:
+        if regs and (not reqs or rng.random() < 0.35):
+            ops.append(dict(regs.pop(0), op="reg"))
+        else:
+            for _ in range(rng.randint(1, 6)):
+                if reqs:
+                    ops.append(dict(reqs.pop(rng.randrange(len(reqs))), op="req"))
+        r = rng.random()
+        served = [o for o in ops if o["op"] == "req" and not o.get("raw") and o["p"].startswith("/")]
+        done = [o for o in ops if o["op"] == "reg"]
+        if r < 0.12 and served:
+            q = rng.choice(served)
+            ops.append({"op": "reg", "m": q["m"], "p": q["p"]})          # literal route for a served path
+            ops.append(dict(q))
+            ops.append(dict(q, m=rng.choice(METHODS)))
+        elif r < 0.2 and done:
+            ops.append(dict(rng.choice(done)))                           # duplicate after serving
+            if served:
+                ops.append(dict(rng.choice(served)))
+    return ops
+
+
+def _to_ops(case, rng=None, weave=False, pats=None):
+    regs, reqs = case.pop("regs"), case.pop("reqs")
+    if weave:
+        case["ops"] = _weave(rng, regs, reqs, pats)
+    else:
+        case["ops"] = [dict(r, op="reg") for r in regs] + [dict(r, op="req") for r in reqs]
+    return case
 
 
 def generate(rng, tier, n):
     cases = []
     for _ in range(n):
         r = rng.random()
-        cases.append(_tree_case(rng, tier) if r < 0.12 else _engine_case(rng, tier) if r < 0.32 else _router_case(rng, tier))
+        if r < 0.12:
+            cases.append(_tree_case(rng, tier))
+        elif r < 0.30:
+            cases.append(_engine_case(rng, tier))
+        else:
+            c = _router_case(rng, tier)
+            pats = c.pop("_pats")
+            ms = sorted({x["m"] for x in c["regs"] if x["m"] in METHODS}) or ["GET"]
+            c["reqs"] += _raw_reqs(rng, pats, ms, 10)
+            cases.append(_to_ops(c, rng, weave=rng.random() < 0.4, pats=pats))
     if tier == "thorough":
-        cases += _exhaustive(rng)
+        cases += [_to_ops(c) for c in _exhaustive(rng)]
     return cases
 
 
@@ -315,7 +401,23 @@ def search(rng, problems):
         ms = sorted({r["m"] for r in tb}) + ["HEAD"]
         reqs = [{"m": m, "p": p} for m in ms[:3] for p in paths]
         reqs += [{"m": "GET", "p": p} for p in ["/a//b", "/a/b/", "/a/./b", "/a/c/../b", "a/b", ""]]
-        out.append({"kind": "router", "nf": False, "regs": tb, "reqs": reqs})
+        out.append(_to_ops({"kind": "router", "nf": False, "regs": tb, "reqs": reqs}))
+    # percent-encoded segments must be bound verbatim (decoded exactly once by net/http)
+    rawsegs = [[x] for x in RAW_SEGS] + [[b"a", x] for x in RAW_SEGS] + [[x, y] for x in RAW_SEGS[:6] for y in RAW_SEGS[:6]]
+    out.append(_to_ops({"kind": "router", "nf": False,
+                        "regs": [_r("GET", "/:x"), _r("GET", "/a/:y"), _r("GET", "/:x/:z"), _r("GET", "/a/%41"), _r("POST", "/+")],
+                        "reqs": [_raw_req(rng, "GET", sg) for sg in rawsegs]}))
+    # histories: param route served, literal route added, served again; registration after 404 / 405; duplicates
+    def q(m, p):
+        return {"op": "req", "m": m, "p": p}
+
+    def g(m, p):
+        return {"op": "reg", "m": m, "p": p}
+    out.append({"kind": "router", "nf": False, "ops": [
+        q("GET", "/a/b"), g("GET", "/a/:x"), q("GET", "/a/b"), q("GET", "/a/c"), g("GET", "/a/b"), q("GET", "/a/b"), q("GET", "/a/c"),
+        q("POST", "/a/b"), g("POST", "/a/b"), q("POST", "/a/b"), q("PUT", "/a/b"), g("GET", "/a/b"), q("GET", "/a/b"),
+        q("GET", "/"), g("GET", "/:r"), q("GET", "/"), g("GET", "/"), q("GET", "/"), q("GET", "/z"), g("GET", "/z/"), q("GET", "/z"),
+        q("GET", "/a/b/c"), g("GET", "/a/b/:w"), q("GET", "/a/b/c"), g("GET", "/:u/b/c"), q("GET", "/a/b/c"), q("GET", "/q/b/c")]})
     egroups = [
         [{"prefix": None, "routes": [_r("GET", "a/b")]}],
         [{"prefix": None, "routes": [_r("GET", "/c"), _r("GET", ":id"), _r("GET", "/d")]}],
@@ -370,9 +472,28 @@ ERR = {"": 0, "method": 1, "path": 2, "dup": 3, "dupslash": 4, "notfromroot": 5,
 
 
 def _b(s):
-    if all(32 <= ord(ch) < 127 for ch in s):
-        return "(bs %s)" % cstr(s)
-    return cbytes(s.encode("utf-8"))
+    """Coq byte list of a str (utf-8) or bytes value"""
+    bs_ = s if isinstance(s, bytes) else s.encode("utf-8")
+    if all(32 <= c < 127 for c in bs_):
+        return "(bs %s)" % cstr(bs_.decode("ascii"))
+    return cbytes(bs_)
+
+
+def _req_path(rq):
+    """the path the request is meant to carry: given directly, or (raw target) hex of the decoded path"""
+    return bytes.fromhex(rq["ph"]) if rq.get("raw") else rq["p"].encode("utf-8")
+
+
+def _row(p, r):
+    """mkobs term for a router / engine observation (hex fields) of a request meant to carry path p (bytes)"""
+    clean = bytes.fromhex(r["clean"])
+    served = bytes.fromhex(r["path"])
+    cl = "None" if clean == p else "(Some %s)" % _b(clean)
+    op = "None" if served == p and not r.get("_raw") else "(Some %s)" % _b(served)
+    return "mkobs %s %s %s %s %s %s %s" % (
+        cl, "%d%%N" % r["status"], clist([cnat(h) for h in r["hids"]]),
+        clist([cpair(_b(k), _b(bytes.fromhex(v))) for k, v in r["vars"]]),
+        clist([_m(a) for a in r["allow"]]), cnat(r["nf"]), op)
 
 
 MT = METHODS + BAD_METHODS
@@ -385,52 +506,46 @@ def _m(m):
 def encode(case, obs):
     if "driver_panic" in obs or "error" in obs:
         # unparsable observation: a case no checker accepts
-        return "mkcase false false [] [1] [] [] [] [] None"
-    tree = case["kind"] == "tree"
+        return "mkcase false false [] [1] [] [] [] [] None []"
     if case["kind"] == "engine":
         return _encode_engine(case, obs)
-    if tree:
-        regs = [("", p) for p in case["adds"]]
-        reqs = [("", p) for p in case["reqs"]]
-        obs = _norm_tree_obs(case, obs)
-    else:
-        regs = [(r["m"], r["p"]) for r in case["regs"]]
-        reqs = [(r["m"], r["p"]) for r in case["reqs"]]
+    if case["kind"] == "router":
+        return _encode_router(case, obs)
+    regs = [("", p) for p in case["adds"]]
+    reqs = [("", p) for p in case["reqs"]]
+    obs = _norm_tree_obs(case, obs)
     cregs = clist([cpair(_m(m), _b(p)) for m, p in regs])
     cerrs = clist([cnat(ERR.get(e, 9)) for e in obs["errs"]])
-    if tree:
-        crclean = "(xcleans %s)" % cregs
-    else:
-        crclean = clist([_b(s) for s in obs["rclean"]])
-    creqs = clist([cpair(_m(m), _b(p)) for m, p in reqs])
     rows = []
     for (m, p), r in zip(reqs, obs["res"]):
-        if r["clean"] is None:
-            cl = "(xsome_clean %s)" % _b(p)
-        elif r["clean"] == p:
-            cl = "None"
+        rows.append("mkobs (xsome_clean %s) %s %s %s [] 0 None" % (
+            _b(p), "%d%%N" % r["status"], clist([cnat(h) for h in r["hids"]]),
+            clist([cpair(_b(k), _b(v)) for k, v in r["vars"]])))
+    return "mkcase true false %s %s (xcleans %s) %s %s [] None []" % (
+        cregs, cerrs, cregs, clist([cpair(_m(m), _b(p)) for m, p in reqs]), clist(rows))
+
+
+def _encode_router(case, obs):
+    ops = []
+    for op, r in zip(case["ops"], obs["res"]):
+        if op["op"] == "reg":
+            ops.append("XReg %s %s %s %s" % (_m(op["m"]), _b(op["p"]), cnat(ERR.get(r["err"], 9)), _b(bytes.fromhex(r["clean"]))))
+        elif r.get("badreq"):
+            continue                                  # net/http refused the raw target: nothing was served
         else:
-            cl = "(Some %s)" % _b(r["clean"])
-        rows.append("mkobs %s %s %s %s %s %s" % (
-            cl, "%d%%N" % r["status"], clist([cnat(h) for h in r["hids"]]),
-            clist([cpair(_b(k), _b(v)) for k, v in r["vars"]]),
-            clist([_m(a) for a in r["allow"]]), cnat(r["nf"])))
-    return "mkcase %s %s %s %s %s %s %s [] None" % (cbool(tree), cbool(bool(case.get("nf"))), cregs, cerrs, crclean, creqs, clist(rows))
-
-
-def _rows(reqs, res):
-    rows = []
-    for (m, p), r in zip(reqs, res):
-        cl = "None" if r["clean"] == p else "(Some %s)" % _b(r["clean"])
-        rows.append("mkobs %s %s %s %s %s %s" % (
-            cl, "%d%%N" % r["status"], clist([cnat(h) for h in r["hids"]]),
-            clist([cpair(_b(k), _b(v)) for k, v in r["vars"]]),
-            clist([_m(a) for a in r["allow"]]), cnat(r["nf"])))
-    return clist(rows)
+            p = _req_path(op)
+            ops.append("XReq %s %s (%s)" % (_m(op["m"]), _b(p), _row(p, dict(r, _raw=bool(op.get("raw"))))))
+    return "mkcase false %s [] [] [] [] [] [] None %s" % (cbool(bool(case.get("nf"))), clist(ops))
 
 
 def _encode_engine(case, obs):
-    reqs = [(r["m"], r["p"]) for r in case["reqs"]]
+    reqs, rows = [], []
+    for rq, r in zip(case["reqs"], obs["res"]):
+        if r.get("badreq"):
+            continue
+        p = _req_path(rq)
+        reqs.append((rq["m"], p))
+        rows.append(_row(p, dict(r, _raw=bool(rq.get("raw")))))
     gs, i = [], 0
     for g in case["groups"]:
         rs = []
@@ -441,8 +556,8 @@ def _encode_engine(case, obs):
     eo = "(Some (mkeobs %s %s %s))" % (
         cnat(ERR.get(obs["err"], 9)), clist([_b(p) for p in obs["paths"]]),
         clist([cpair(_m(c["m"]), _b(c["p"]), cnat(ERR.get(c["err"], 9))) for c in obs["calls"]]))
-    return "mkcase false false [] [] [] %s %s %s %s" % (
-        clist([cpair(_m(m), _b(p)) for m, p in reqs]), _rows(reqs, obs["res"]), clist(gs), eo)
+    return "mkcase false false [] [] [] %s %s %s %s []" % (
+        clist([cpair(_m(m), _b(p)) for m, p in reqs]), clist(rows), clist(gs), eo)
 
 
 # ----------------------------------------------------------------------------- evidence helpers
@@ -452,8 +567,17 @@ def _res(case, obs):
     return obs.get("res", [])
 
 
+def _req_rows(case, obs):
+    """(request, result) pairs with status / hids / vars present"""
+    if case["kind"] == "tree":
+        return list(zip(case["reqs"], _norm_tree_obs(case, obs)["res"]))
+    if case["kind"] == "engine":
+        return [(q, r) for q, r in zip(case["reqs"], obs.get("res", [])) if not r.get("badreq")]
+    return [(o, r) for o, r in zip(case["ops"], obs.get("res", [])) if o["op"] == "req" and not r.get("badreq")]
+
+
 def nontrivial(case, obs):
-    rs = _res(case, obs)
+    rs = [r for _, r in _req_rows(case, obs)]
     return any(r["status"] == 200 and r["vars"] for r in rs) and any(r["status"] in (404, 405) for r in rs)
 
 
@@ -463,39 +587,63 @@ def _segs(clean):
 
 def bucket(case, obs):
     out = ["kind:" + case["kind"]]
-    rs = _res(case, obs)
-    for r in rs:
+    rows = _req_rows(case, obs)
+    for _, r in rows:
         out.append("status:%d" % r["status"])
-    for e in obs.get("errs", []):
-        out.append("reg:" + (e.split(":")[0] or "ok"))
+    if case["kind"] == "tree":
+        for e in obs.get("errs", []):
+            out.append("reg:" + (e.split(":")[0] or "ok"))
     if case["kind"] == "engine":
         out.append("engine:via=" + case["via"])
         out.append("engine:bind=" + (obs["err"].split(":")[0] or "ok"))
         if any(g["prefix"] is not None for g in case["groups"]):
             out.append("engine:prefix")
+    if case["kind"] in ("engine", "router"):
+        for q, r in rows:
+            if q.get("raw"):
+                out.append("req:raw")
+                if r["vars"] and any(b"%" in bytes.fromhex(v) for _, v in r["vars"]):
+                    out.append("req:raw-var-with-percent")
     if case["kind"] == "router":
-        out.append("regs=%d" % len(case["regs"]))
-        acc = [(case["regs"][i]["m"], _segs(obs["rclean"][i])) for i, e in enumerate(obs["errs"])]
-        acc_ok = [(i, a) for i, a in enumerate(acc) if obs["errs"][i] == "" and a[1] is not None]
-        for rq, r in zip(case["reqs"], rs):
-            if r["clean"] != rq["p"]:
+        regs_seen, interleaved = 0, False
+        acc_ok = {}
+        seen_req = False
+        for i, (o, r) in enumerate(zip(case["ops"], obs.get("res", []))):
+            if o["op"] == "reg":
+                out.append("reg:" + (r["err"].split(":")[0] or "ok"))
+                regs_seen += 1
+                if seen_req:
+                    interleaved = True
+                    out.append("hist:reg-after-req")
+                cl = bytes.fromhex(r["clean"]).decode("utf-8", "replace")
+                if r["err"] == "" and cl.startswith("/"):
+                    acc_ok[i] = (o["m"], _segs(cl))
+                continue
+            seen_req = True
+            if r.get("badreq"):
+                out.append("req:badreq")
+                continue
+            if bytes.fromhex(r["clean"]) != bytes.fromhex(r["path"]):
                 out.append("req:dirty")
             if len(r.get("allow", [])) >= 2:
                 out.append("allow>=2")
             if r["status"] == 200 and len(r["hids"]) == 1:
-                q = _segs(r["clean"])
-                won = dict(acc_ok).get(r["hids"][0])
+                q = _segs(bytes.fromhex(r["clean"]).decode("utf-8", "replace"))
+                won = acc_ok.get(r["hids"][0])
                 if q is None or won is None:
                     continue
-                for i, (m, pat) in acc_ok:
-                    if m != rq["m"] or i == r["hids"][0]:
+                for k, (m, pat) in acc_ok.items():
+                    if m != o["m"] or k == r["hids"][0]:
                         continue
-                    for k in range(min(len(pat), len(q), len(won[1]))):
-                        if not (pat[k].startswith(":") or pat[k] == q[k]):
+                    for d in range(min(len(pat), len(q), len(won[1]))):
+                        if not (pat[d].startswith(":") or pat[d] == q[d]):
                             break
-                        if pat[k] == q[k] and won[1][k].startswith(":"):
+                        if pat[d] == q[d] and won[1][d].startswith(":"):
                             out.append("backtrack")
                             break
+        out.append("regs=%d" % regs_seen)
+        if interleaved:
+            out.append("hist:interleaved")
     return out
 
 
@@ -519,21 +667,38 @@ def _spec_fails(cands):
 
 
 def shrink(v):
-    """one failing request, then greedily drop registrations while the violation persists"""
+    """router histories: drop ops greedily (keeping order) while spec_ok stays false; tree: one failing
+    request then drop adds; engine: one failing request"""
     case = v["case"]
-    rk = "reqs"
     if case["kind"] == "engine":
         cands = [dict(case, reqs=[q]) for q in case["reqs"]] + [dict(case, reqs=[])]
         bad, obs = _spec_fails(cands)
         return {"case": cands[bad[-1]], "obs": obs[bad[-1]]} if bad else v
-    gk = "regs" if case["kind"] == "router" else "adds"
-    cands = [dict(case, **{rk: [q]}) for q in case[rk]]
+    if case["kind"] == "router":
+        cur, cur_obs = case, v["obs"]
+        # first: a prefix ending at a request (histories are judged step by step)
+        cands = [dict(case, ops=case["ops"][:k + 1]) for k, o in enumerate(case["ops"]) if o["op"] == "req"]
+        bad, obs = _spec_fails(cands)
+        if bad:
+            cur, cur_obs = cands[bad[0]], obs[bad[0]]
+        for _ in range(14):
+            body = cur["ops"][:-1]
+            cands = [dict(cur, ops=body[:j] + body[j + 1:] + cur["ops"][-1:]) for j in range(len(body))]
+            if len(cands) > 60:
+                # many ops: try dropping all requests before the last one at once
+                cands.insert(0, dict(cur, ops=[o for o in body if o["op"] == "reg"] + cur["ops"][-1:]))
+            bad, obs = _spec_fails(cands)
+            if not bad:
+                break
+            cur, cur_obs = cands[bad[0]], obs[bad[0]]
+        return {"case": cur, "obs": cur_obs}
+    cands = [dict(case, reqs=[q]) for q in case["reqs"]]
     bad, obs = _spec_fails(cands)
     if not bad:
         return v
     cur, cur_obs = cands[bad[0]], obs[bad[0]]
     for _ in range(12):
-        cands = [dict(cur, **{gk: cur[gk][:j] + cur[gk][j + 1:]}) for j in range(len(cur[gk]))]
+        cands = [dict(cur, adds=cur["adds"][:j] + cur["adds"][j + 1:]) for j in range(len(cur["adds"]))]
         bad, obs = _spec_fails(cands)
         if not bad:
             break
